@@ -274,6 +274,26 @@ def impl(case):
                 if any(x.shape != qv[0].shape for x in pq):
                     raise RuntimeError(f"{nm}: prediction shape {pq[0].shape} is not the query's shape {qv[0].shape}")
                 res[nm] = [x.ravel().tolist() for x in pq]
+            # results are the caller's: a prediction already returned does not change when the same object predicts again (same number of points,
+            # other points), and the two results do not share memory
+            first = gq.predict((qE, qN))
+            first = first if isinstance(first, tuple) else (first,)
+            kept = [np.array(x, dtype=float, copy=True) for x in first]
+            second = gq.predict((qE[::-1] * 0.5 + 0.375, qN * -1.0 + 0.25))
+            second = second if isinstance(second, tuple) else (second,)
+            if any(not np.array_equal(np.asarray(x, dtype=float), k_, equal_nan=True) for x, k_ in zip(first, kept)) or \
+                    any(np.shares_memory(np.asarray(x), np.asarray(y)) for x in first for y in second):
+                raise RuntimeError("a prediction returned earlier changed (or shares memory) when the same object predicted again")
+            # queries with an axis of length one: a single row, a single column, one point as a 1-element or a 1 x 1 array - the prediction has
+            # exactly the query's shape
+            flatE, flatN = qE.ravel(), qN.ravel()
+            for nm, qs in {"query-single-row": (flatE[None, :], flatN[None, :]), "query-single-column": (flatE[:, None], flatN[:, None]),
+                           "query-1-element": (flatE[:1], flatN[:1]), "query-1x1": (qE[:1, :1], qN[:1, :1]), "query-1x1x1": (qE[:1, :1, None], qN[:1, :1, None])}.items():
+                ps = gq.predict(qs)
+                ps = [np.asarray(x, dtype=float) for x in (ps if isinstance(ps, tuple) else (ps,))]
+                if any(x.shape != qs[0].shape for x in ps):
+                    raise RuntimeError(f"{nm}: prediction shape {ps[0].shape} is not the query's shape {qs[0].shape}")
+                res["mixed:" + nm] = [[x.ravel().tolist() for x in ps], [np.asarray(k_).ravel()[:ps[0].size].tolist() for k_ in kept]]
             # a single query point handed over as two scalars (Python floats, NumPy scalars, 0-d arrays): the prediction is 0-dimensional (the
             # broadcast shape of two scalars) and is the value predicted at that point
             q0 = (float(qE[1, 1]), float(qN[1, 1]))
